@@ -61,9 +61,18 @@ type nfsClient struct {
 	mGone       bool      // ... and is known to have discarded it again
 	mLastSeen   time.Time // last lease renewal
 	mClientID   uint64    // client id of the incarnation the server knows
+	mExpired    bool      // mGone because the lease ran out and a request entered the client's program afterwards
+	mExpiredAt  time.Time
+	mNoticedBy  string
+
+	// A silent client sends nothing until the run has at most wakeAt turns left.
+	silent bool
+	wakeAt int
 
 	actor *simsync.Actor
 }
+
+func (c *nfsClient) isSilent() bool { return c.silent && c.w.turnsLeft > c.wakeAt }
 
 type nfsWorld struct {
 	*world
@@ -82,12 +91,67 @@ type nfsWorld struct {
 	known41   bool
 	freeHeld  bool
 
+	// pastIDs remembers the client ids of incarnations whose lease expired.
+	pastIDs map[uint64]*nfsClient
+	// expiredRanges are the locks clients held when their lease expired.
+	expiredRanges []expiredRange
+
+	spoiled, nonCompleting, expiredHolding, postExpiryLock, postExpiryLockt int
+
 	compounds, granted, denied, locktConflicts, locktClear int
 	unlocks, closes, sweeps, setupFailed, known41Hits      int
 	version                                                [2]int // granted locks per minor version
 }
 
+type expiredRange struct {
+	c  *nfsClient
+	f  int
+	iv ival
+}
+
 func (w *nfsWorld) now() time.Time { return w.clock.Global() }
+
+// enterProgram mirrors what both servers document for enter(), which every
+// request passes before it is processed: "Remove clients that have not renewed
+// their state in some time. Close all of the files and release all locks owned
+// by these clients." A request to the NFSv4.m program therefore discards every
+// NFSv4.m client that has been idle for more than the enforced lease time
+// (the world never has a request of the client itself in flight at that
+// moment). From then on the locks of such a client are gone for certain.
+func (w *nfsWorld) enterProgram(minor uint32, by *nfsClient) {
+	for _, c := range w.allClients() {
+		if c.minor != minor || !c.zombie() {
+			continue
+		}
+		held := false
+		for _, lo := range c.los {
+			for f, fm := range w.files {
+				for _, iv := range fm.owners[lo.id] {
+					held = true
+					w.expiredRanges = append(w.expiredRanges, expiredRange{c, f, iv})
+				}
+			}
+		}
+		c.mExpired, c.mExpiredAt, c.mNoticedBy = true, w.now(), by.name
+		w.pastIDs[c.mClientID] = c
+		if held {
+			w.expiredHolding++
+			w.k.Probe("client_expired_holding_locks")
+		}
+		w.markGone(c, fmt.Sprintf("idle for %s > lease %s when a request of %s entered the %s program", w.now().Sub(c.mLastSeen), leaseTime, by.name, c.vers()))
+	}
+}
+
+// overExpired reports whether [s, e) of file f touches a lock that a client
+// other than c held when its lease expired.
+func (w *nfsWorld) overExpired(c *nfsClient, f int, s, e uint64) bool {
+	for _, x := range w.expiredRanges {
+		if x.c != c && x.f == f && x.iv.e > s && x.iv.s < e {
+			return true
+		}
+	}
+	return false
+}
 
 func (c *nfsClient) vers() string { return fmt.Sprintf("nfs4.%d", c.minor) }
 
@@ -230,6 +294,7 @@ func (c *nfsClient) call(ops ...nfsv4.NfsArgop4) (res []nfsv4.NfsResop4, status 
 		}})
 	}
 	args.Argarray = append(args.Argarray, ops...)
+	w.enterProgram(c.minor, c)
 	reply, err := w.program.NfsV4Nfsproc4Compound(context.Background(), args)
 	if err != nil {
 		harness("COMPOUND returned a transport error: %v", err)
@@ -253,6 +318,7 @@ func (c *nfsClient) call(ops ...nfsv4.NfsArgop4) (res []nfsv4.NfsResop4, status 
 func (c *nfsClient) rawCall(ops ...nfsv4.NfsArgop4) ([]nfsv4.NfsResop4, nfsv4.Nfsstat4) {
 	w := c.w
 	w.compounds++
+	w.enterProgram(c.minor, c)
 	reply, err := w.program.NfsV4Nfsproc4Compound(context.Background(), &nfsv4.Compound4args{Tag: c.name, Minorversion: c.minor, Argarray: ops})
 	if err != nil {
 		harness("COMPOUND returned a transport error: %v", err)
@@ -264,6 +330,11 @@ func (c *nfsClient) rawCall(ops ...nfsv4.NfsArgop4) ([]nfsv4.NfsResop4, nfsv4.Nf
 // lease is renewed; and the server must not have discarded c before.
 func (c *nfsClient) served(what string) bool {
 	w := c.w
+	if c.mGone && c.mExpired {
+		w.violate("C20/expired-client-state-kept", "[%s] %s of %s was processed normally although the lease of this client (%s) ran out: it had been idle for more than the lease time at %s, when a request of %s entered the %s program, which is documented to discard such clients and release their locks. Its open files and byte-range locks were therefore never released. model:%s",
+			c.vers(), what, c.name, leaseTime, c.mExpiredAt.Sub(startTime), c.mNoticedBy, c.vers(), w.modelString())
+		return false
+	}
 	if c.mGone {
 		w.violate("C20/lock-lost-while-client-alive", "[%s] %s of %s was processed normally, but locks of this client had been released earlier: a conflicting request of another owner was granted over them (history in the trace)", c.vers(), what, c.name)
 		return false
@@ -381,7 +452,7 @@ func (c *nfsClient) register() bool {
 			w.k.Probe("reboot_released_locks")
 		}
 	}
-	c.mRegistered, c.mGone, c.mLastSeen, c.mClientID = true, false, w.now(), c.clientID
+	c.mRegistered, c.mGone, c.mExpired, c.mLastSeen, c.mClientID = true, false, false, w.now(), c.clientID
 	c.registered = true
 	w.k.Annotate("%s registered (%s, clientid %x)", c.name, c.vers(), c.clientID)
 	return true
@@ -577,6 +648,15 @@ func (w *nfsWorld) evaluate(q *lockReq, st nfsv4.Nfsstat4, denied *nfsv4.Lock4de
 		ds, de, dvalid := rangeOf(denied.Offset, denied.Length)
 		dt := typeOf(denied.Locktype)
 		dstr := fmt.Sprintf("owner (clientid %x, %q) %s %s", denied.Owner.Clientid, denied.Owner.Owner, rangeStr(denied.Offset, denied.Length), ltName(denied.Locktype))
+		if x := w.pastIDs[denied.Owner.Clientid]; x != nil {
+			verb := "LOCK was denied because of"
+			if isTest {
+				verb = "LOCKT reported a conflict with"
+			}
+			w.violate("C20/lock-of-expired-client-still-blocks", "[%s] %s: %s a lock of %s, whose lease (%s) had expired: %s had been idle for more than the lease time at %s, when a request of %s entered the %s program, which is documented to discard such clients and release their locks; nobody holds that lock in the model. model:%s",
+				c.vers(), q.what, verb, dstr, leaseTime, x.name, x.mExpiredAt.Sub(startTime), x.mNoticedBy, x.vers(), w.modelString())
+			return -1
+		}
 		if q.lo != nil && d == q.lo {
 			if c.minor == 1 && w.known41 {
 				w.known41Hits++
@@ -674,6 +754,10 @@ func (c *nfsClient) lock(lo *lockOwner, f int, off, length uint64, lt nfsv4.NfsL
 		w.files[f].set(lo.id, s, e, t)
 		w.granted++
 		w.version[c.minor]++
+		if w.overExpired(c, f, s, e) {
+			w.postExpiryLock++
+			w.k.Probe("post_expiry_lock_by_other_granted")
+		}
 		w.k.Probe(fmt.Sprintf("nfs4%d_lock_granted", c.minor))
 		w.k.Probe("lock_path_" + pathName)
 		if ownOverlap {
@@ -735,6 +819,10 @@ func (c *nfsClient) lockt(lo *lockOwner, name []byte, f int, off, length uint64,
 	switch out {
 	case 0:
 		w.locktClear++
+		if s, e, ok := rangeOf(off, length); ok && w.overExpired(c, f, s, e) {
+			w.postExpiryLockt++
+			w.k.Probe("post_expiry_lockt_by_other_clear")
+		}
 		if lo != nil {
 			s, e, _ := rangeOf(off, length)
 			for _, iv := range w.files[f].owners[lo.id] {
@@ -799,6 +887,154 @@ func (c *nfsClient) locku(lo *lockOwner, f int, off, length uint64, lt nfsv4.Nfs
 		w.k.Probe("unlock_of_lock_holder")
 	}
 	w.k.Annotate("-> OK; model f%d:%s", f, w.files[f])
+}
+
+// --- requests that must fail and change nothing ------------------------------------------
+
+const (
+	spoilNone = iota
+	spoilWrongFH
+	spoilNoFH
+	spoilFutureStateSeq
+	spoilOldStateSeq
+	spoilBadSeqid
+	spoilUnknownOther
+)
+
+var spoilNames = []string{"", "wrong-current-filehandle", "no-current-filehandle", "future-stateid-seqid", "old-stateid-seqid", "bad-owner-seqid", "unknown-stateid"}
+
+// spoiledRequest sends a LOCK or LOCKU of lock-owner lo on file f that is
+// wrong in exactly one way. With a lock state id it takes the
+// existing-lock-owner path, otherwise (LOCK only, wrong file handle only) the
+// open-to-lock-owner path. The request must fail, must not touch any lock
+// table, and - where the outcome is one of the errors of RFC 7530 section
+// 9.1.7 - must not advance the owner's seqid. It returns true when the
+// request failed in the predicted way.
+func (c *nfsClient) spoiledRequest(lo *lockOwner, f int, unlock bool, kind int, off, length uint64, lt nfsv4.NfsLockType4) bool {
+	w := c.w
+	oo := lo.oo
+	existing := lo.lockSt[f] != nil
+	if !existing {
+		unlock, kind = false, spoilWrongFH
+	}
+	var sid nfsv4.Stateid4
+	if existing {
+		sid = *lo.lockSt[f]
+	} else {
+		sid = *oo.opens[f]
+	}
+	if kind == spoilOldStateSeq && sid.Seqid < 2 {
+		kind = spoilFutureStateSeq
+	}
+	if kind == spoilBadSeqid && c.minor != 0 {
+		kind = spoilUnknownOther
+	}
+	prefix := []nfsv4.NfsArgop4{w.putfh(f)}
+	seq := lo.seqid + 1
+	expect := nfsv4.NFS4ERR_BAD_STATEID
+	// certain: the request reaches the point where the server knows which
+	// client it is dealing with, so the lease is renewed like by any request.
+	certain := true
+	switch kind {
+	case spoilWrongFH:
+		if len(w.files) > 1 {
+			prefix = []nfsv4.NfsArgop4{w.putfh((f + 1) % len(w.files))}
+		} else {
+			prefix = []nfsv4.NfsArgop4{&nfsv4.NfsArgop4_OP_PUTROOTFH{}}
+		}
+	case spoilNoFH:
+		prefix = nil
+		expect = nfsv4.NFS4ERR_NOFILEHANDLE
+	case spoilFutureStateSeq:
+		sid.Seqid++
+	case spoilOldStateSeq:
+		sid.Seqid--
+		expect = nfsv4.NFS4ERR_OLD_STATEID
+	case spoilBadSeqid:
+		seq = lo.seqid + 3
+		expect = nfsv4.NFS4ERR_BAD_SEQID
+		certain = false
+	case spoilUnknownOther:
+		if c.minor == 0 {
+			sid.Other[11] ^= 0x5a
+			certain = false
+		} else {
+			sid.Other[3] ^= 0x5a
+		}
+	}
+	var op nfsv4.NfsArgop4
+	name := "LOCK"
+	switch {
+	case unlock:
+		name = "LOCKU"
+		op = &nfsv4.NfsArgop4_OP_LOCKU{Oplocku: nfsv4.Locku4args{Locktype: lt, Seqid: seq, LockStateid: sid, Offset: off, Length: length}}
+	case existing:
+		op = &nfsv4.NfsArgop4_OP_LOCK{Oplock: nfsv4.Lock4args{Locktype: lt, Offset: off, Length: length,
+			Locker: &nfsv4.Locker4_FALSE{LockOwner: nfsv4.ExistLockOwner4{LockStateid: sid, LockSeqid: seq}}}}
+	default:
+		name = "LOCK(open-to-lock-owner)"
+		op = &nfsv4.NfsArgop4_OP_LOCK{Oplock: nfsv4.Lock4args{Locktype: lt, Offset: off, Length: length,
+			Locker: &nfsv4.Locker4_TRUE{OpenOwner: nfsv4.OpenToLockOwner4{
+				OpenSeqid: oo.seqid + 1, OpenStateid: sid, LockSeqid: seq,
+				LockOwner: nfsv4.StateOwner4{Clientid: c.clientID, Owner: lo.name},
+			}}}}
+	}
+	what := fmt.Sprintf("spoiled %s(%s, f%d, %s, %s): %s", name, lo, f, rangeStr(off, length), ltName(lt), spoilNames[kind])
+	w.k.Note(what)
+	w.spoiled++
+	_, st, seqOK := c.call(append(prefix, op)...)
+	if !seqOK {
+		c.unexpected("C20/bad-request-accepted", what, st, statusName(expect))
+		return false
+	}
+	if c.mGone {
+		// The server has forgotten the client: it cannot know the state id.
+		if !c.stateLost(what, st) {
+			c.served(what) // reports that the state of an expired client was kept
+		}
+		return false
+	}
+	if st == nfsv4.NFS4_OK || st == nfsv4.NFS4ERR_DENIED {
+		w.violate("C20/bad-request-accepted", "[%s] %s answered %s; expected %s and no effect on any lock table. model:%s", c.vers(), what, statusName(st), statusName(expect), w.modelString())
+		return false
+	}
+	if st != expect {
+		// Another error: nothing the property speaks about, but the client
+		// no longer knows what the server remembers; it starts over.
+		w.k.Probe("spoiled_request_other_error")
+		w.k.Annotate("-> %s (predicted %s); client starts over", statusName(st), statusName(expect))
+		c.register()
+		return false
+	}
+	if seqidAdvances(st) {
+		// NFS4ERR_OLD_STATEID: the seqid of the owner advances (RFC 7530, 9.1.7).
+		lo.seqid++
+		if !existing {
+			oo.seqid++
+		}
+	} else {
+		w.nonCompleting++
+		w.k.Probe("failed_noncompleting_lockowner_request")
+		w.k.Probe(fmt.Sprintf("failed_noncompleting_nfs4%d_%s", c.minor, spoilNames[kind]))
+	}
+	w.k.Annotate("-> %s as predicted; lock tables must be unchanged", statusName(st))
+	if certain {
+		c.mLastSeen = w.now()
+	} else {
+		// Whether such a request renews the lease is not for the model to
+		// say; a RENEW settles it.
+		c.ping()
+		return !w.failed && c.registered
+	}
+	return true
+}
+
+func (c *nfsClient) goSilent(length int, why string) {
+	w := c.w
+	c.silent = true
+	c.wakeAt = max(0, w.turnsLeft-6-length)
+	w.k.Note(fmt.Sprintf("%s goes silent %s until %d turns are left", c.name, why, c.wakeAt))
+	w.k.FaultsFired["client-silent"]++
 }
 
 func (c *nfsClient) holdsAnywhere(lo *lockOwner) bool {
@@ -906,6 +1142,9 @@ type choices struct {
 	sweepAs   int
 	prefer    bool // prefer a (lock-owner, file) pair that has lock state
 	preferIdx int
+	spoil     int // which way a LOCK/LOCKU request is made to fail (0: not at all)
+	silence   int // 0: no; 1: go silent after this turn; 2: only after a spoiled request
+	silentLen int
 }
 
 const (
@@ -937,6 +1176,9 @@ func (c *nfsClient) draw() choices {
 	ch.sweepAs = t.Choice(2)
 	ch.prefer = t.Bool(1, 2)
 	ch.preferIdx = t.Choice(8)
+	ch.spoil = t.Weighted([]int{30, 2, 1, 1, 1, 1, 1})
+	ch.silence = t.Weighted([]int{20, 1, 6})
+	ch.silentLen = t.Choice(20)
 	return ch
 }
 
@@ -987,6 +1229,17 @@ func (c *nfsClient) turn(ch choices) {
 	if kind == opLocku && lo.lockSt[ch.f] == nil {
 		kind = opLock
 	}
+	if (kind == opLock || kind == opLocku) && ch.spoil != spoilNone && (lo.lockSt[ch.f] != nil || lo.oo.opens[ch.f] != nil) {
+		if ch.invalid != 0 {
+			off, length = ch.s, ch.e-ch.s
+		}
+		ok := c.spoiledRequest(lo, ch.f, kind == opLocku, ch.spoil, off, length, ch.lt)
+		if ok && ch.silence != 0 && !c.observer {
+			c.goSilent(ch.silentLen, "right after the failed request")
+			w.k.Probe("client_silent_after_failed_request")
+		}
+		return
+	}
 	switch kind {
 	case opLock:
 		force := ch.forceO2L && c.minor == 1 && !w.known41
@@ -1007,7 +1260,7 @@ func (c *nfsClient) turn(ch choices) {
 			c.releaseLockowner(lo)
 		} else if lo.lockSt[ch.f] != nil {
 			// FREE_STATEID is only legal once the owner holds nothing on the file.
-			if !w.freeHeld && w.files[ch.f].holds(lo.id) {
+			if (!w.freeHeld || ch.allOnes) && w.files[ch.f].holds(lo.id) {
 				c.locku(lo, ch.f, 0, maxOff, ch.lt)
 			}
 			if !w.failed && c.registered && lo.lockSt[ch.f] != nil && (w.freeHeld || !w.files[ch.f].holds(lo.id)) {
@@ -1023,18 +1276,25 @@ func (c *nfsClient) turn(ch choices) {
 		w.k.FaultsFired["client-reboot"]++
 		c.register()
 	}
+	if ch.silence == 1 && !w.failed && !c.observer {
+		c.goSilent(ch.silentLen, "")
+	}
 }
 
 func (c *nfsClient) loop() {
 	w := c.w
 	k := w.k
 	for {
-		k.SeamWhen("turn", func() bool { return !w.busy && ((w.phase == 0 && w.turnsLeft > 0) || w.phase == 2) })
+		k.SeamWhen("turn", func() bool { return !w.busy && ((w.phase == 0 && w.turnsLeft > 0 && !c.isSilent()) || w.phase == 2) })
 		if w.phase == 2 {
 			return
 		}
 		w.busy = true
 		w.turnsLeft--
+		if c.silent {
+			c.silent = false
+			k.Note(c.name + " is back")
+		}
 		ch := c.draw()
 		if !(c.lazy && ch.idle) && !w.failed {
 			c.turn(ch)
@@ -1154,6 +1414,46 @@ func (w *nfsWorld) observerLoop() {
 				}
 			}
 		}
+		if !w.failed {
+			// Everybody falls silent for longer than the lease time. Then one
+			// request enters each program (the observers register anew),
+			// after which no client is left: nobody may hold a lock any
+			// more, and a fresh client can lock every file entirely.
+			k.Yield("final-all-expire")
+			k.Note("all clients silent, clock +11s, one request enters each program")
+			w.clock.Advance(11 * time.Second)
+			for _, o := range w.obs {
+				if !w.failed && !o.register() {
+					harness("observer cannot register")
+				}
+			}
+			for _, c := range w.clients {
+				if c.mRegistered && !c.mGone {
+					harness("client %s not expired after the final silence", c.name)
+				}
+			}
+			for f, fm := range w.files {
+				if len(fm.owners) != 0 {
+					harness("model of f%d not empty after all leases expired:%s", f, fm)
+				}
+			}
+			for f := range w.files {
+				if !w.sweep(w.obs[(as+f)%2], f) {
+					break
+				}
+			}
+			for f := range w.files {
+				o := w.obs[(as+f+1)%2]
+				if w.failed || (!o.registered && !o.register()) {
+					break
+				}
+				w.k.Probe("final_whole_file_lock_by_fresh_client")
+				o.lock(o.los[0], f, 0, maxOff, nfsv4.WRITE_LT, false)
+				if !w.failed && o.registered {
+					o.close(o.oos[0], f)
+				}
+			}
+		}
 		w.finalDone = true
 		w.busy = false
 		k.SeamWhen("leave", func() bool { return w.phase == 2 })
@@ -1204,8 +1504,14 @@ func runNFS(base *world) {
 		w.r.Logf("%s: %s lazy=%v open-owners=%d lock-owners=%d", c.name, c.vers(), c.lazy, nOO, nLO)
 	}
 	for m := uint32(0); m < 2; m++ {
-		w.obs = append(w.obs, &nfsClient{w: w, idx: 100 + int(m), name: fmt.Sprintf("obs4%d", m), minor: m, observer: true, longID: []byte(fmt.Sprintf("observer-%d", m))})
+		o := &nfsClient{w: w, idx: 100 + int(m), name: fmt.Sprintf("obs4%d", m), minor: m, observer: true, longID: []byte(fmt.Sprintf("observer-%d", m))}
+		// Only used at the very end, when the observer locks whole files.
+		o.oos = []*openOwner{{c: o, name: []byte("OF"), opens: map[int]*nfsv4.Stateid4{}}}
+		o.los = []*lockOwner{{c: o, oo: o.oos[0], name: []byte("LF"), id: len(w.owners), lockSt: map[int]*nfsv4.Stateid4{}}}
+		w.owners = append(w.owners, o.los[0])
+		w.obs = append(w.obs, o)
 	}
+	w.pastIDs = map[uint64]*nfsClient{}
 	w.turnsLeft = 20 + 5*t.Choice(10)
 	if w.r.Tier == "thorough" {
 		w.turnsLeft *= 2
@@ -1283,6 +1589,11 @@ func runNFS(base *world) {
 	r.Count("nfs_closes", w.closes)
 	r.Count("nfs_sweeps", w.sweeps)
 	r.Count("nfs_setup_failed", w.setupFailed)
+	r.Count("nfs_spoiled_requests", w.spoiled)
+	r.Count("nfs_failed_noncompleting_lockowner_requests", w.nonCompleting)
+	r.Count("nfs_clients_expired_holding_locks", w.expiredHolding)
+	r.Count("nfs_post_expiry_lock_by_other_granted", w.postExpiryLock)
+	r.Count("nfs_post_expiry_lockt_by_other_clear", w.postExpiryLockt)
 	r.Count("nfs_known41_tolerated", w.known41Hits)
 	r.State(fmt.Sprintf("nfs granted=%d denied=%d expiry=%d", min(w.granted, 4), min(w.denied, 3), min(k.FaultsFired["lease-expiry"], 2)))
 	r.NonTrivial = w.granted >= 2 && w.denied+w.locktConflicts >= 1
